@@ -183,6 +183,10 @@ func (p *Prog) ruleCallers(r *Rule) []RuleResult {
 			}
 		}
 	}
+	if len(out) == 0 {
+		// no call site at all: holds (an allowed list of `nobody` says so explicitly)
+		out = append(out, RuleResult{Name: fmt.Sprintf("rule/callers %s/(no call site)", key), OK: true, Rule: r})
+	}
 	sort.Slice(out, func(i, j int) bool { return out[i].Name < out[j].Name })
 	return dedupRules(out)
 }
